@@ -527,23 +527,140 @@ pub fn mach_event(out: &mut dyn std::io::Write, cfg: &str, force: u8) {
 
 /// Operations the concrete vector types expose beyond the Machine trait bounds (C12: "operations a backend
 /// exposes return rather than panic"): u128x1 bswap and byte I/O, u64x2 byte I/O.  Called on the concrete machine.
+/// operations that exist on the concrete vector types beyond what the `Machine` trait bounds promise
+macro_rules! assignops {
+    ($c:ident, $ty:expr, $ops:expr, $V:ty, $ld:expr, $st:expr) => {
+        bin!($c, $ty, $ops, $V, $ld, $st,
+            "and_assign" => |x: $V, y: $V| { let mut z = x; z &= y; z },
+            "or_assign" => |x: $V, y: $V| { let mut z = x; z |= y; z });
+    };
+}
+macro_rules! eqop {
+    ($c:ident, $ty:expr, $ops:expr, $V:ty, $ld:expr) => {
+        for (k, (a, b)) in $ops.clone().iter().enumerate() {
+            // equal operands, operands differing in one byte (position rotates), unrelated operands
+            let mut b1 = a.clone();
+            b1[k % a.len()] ^= 1 << (k % 8);
+            for bb in [a.clone(), b1, b.clone()].iter() {
+                if $c.begin($ty, "eq", a, bb, 0) { let x: $V = $ld(a); let y: $V = $ld(bb); let r = x == y; $c.end(&[r as u8]); }
+            }
+        }
+    };
+}
+/// byte I/O of the 128-bit-word types: implemented by the x86 backends only
+macro_rules! concrete_u128io {
+    ($c:ident, $M:ty) => {{
+        let m = unsafe { <$M as Machine>::instance() };
+        let o128 = $c.ops128.clone();
+        let o256 = $c.ops256.clone();
+        let o512 = $c.ops512.clone();
+        {
+            type V = <$M as Machine>::u128x1;
+            let ld = |b: &Vec<u8>| -> V { m.unpack(s128(b)) };
+            let st = |v: V| -> Vec<u8> { b128(v.into()) };
+            storebytes!($c, m, "u128x1", o128, V, ld, st, 16);
+        }
+        {
+            type V = <$M as Machine>::u128x2;
+            let ld = |b: &Vec<u8>| -> V { m.unpack(s256(b)) };
+            let st = |v: V| -> Vec<u8> { b256(v.into()) };
+            storebytes!($c, m, "u128x2", o256, V, ld, st, 32);
+        }
+        {
+            type V = <$M as Machine>::u128x4;
+            let ld = |b: &Vec<u8>| -> V { m.unpack(s512(b)) };
+            let st = |v: V| -> Vec<u8> { b512(v.into()) };
+            storebytes!($c, m, "u128x4", o512, V, ld, st, 64);
+        }
+        // storage conversions (x86 storage unions only; no Machine involved)
+        for (a, _b) in o128.iter() {
+            if $c.begin("u128x1", "st_u128x1", a, &[], 0) { let w: [u128; 1] = s128(a).into(); $c.end(&w[0].to_le_bytes()); }
+        }
+        for (a, _b) in o256.iter() {
+            if $c.begin("u32x4x2", "st_u32x8", a, &[], 0) { let w: [u32; 8] = s256(a).into(); let o: Vec<u8> = w.iter().flat_map(|x| x.to_le_bytes()).collect(); $c.end(&o); }
+            if $c.begin("u128x2", "st_u128x2", a, &[], 0) { let w: [u128; 2] = s256(a).into(); let o: Vec<u8> = w.iter().flat_map(|x| x.to_le_bytes()).collect(); $c.end(&o); }
+        }
+        for (a, _b) in o512.iter() {
+            if $c.begin("u32x4x4", "st_u32x16", a, &[], 0) { let w: [u32; 16] = s512(a).into(); let o: Vec<u8> = w.iter().flat_map(|x| x.to_le_bytes()).collect(); $c.end(&o); }
+            if $c.begin("u64x2x4", "st_u64x8", a, &[], 0) { let w: [u64; 8] = s512(a).into(); let o: Vec<u8> = w.iter().flat_map(|x| x.to_le_bytes()).collect(); $c.end(&o); }
+            if $c.begin("u128x4", "st_u128x4", a, &[], 0) { let w: [u128; 4] = s512(a).into(); let o: Vec<u8> = w.iter().flat_map(|x| x.to_le_bytes()).collect(); $c.end(&o); }
+        }
+    }};
+}
 macro_rules! concrete_ops {
     ($c:ident, $M:ty) => {{
         let m = unsafe { <$M as Machine>::instance() };
         $c.mach = core::any::type_name::<$M>().to_string();
         let o128 = $c.ops128.clone();
+        let o256 = $c.ops256.clone();
+        let o512 = $c.ops512.clone();
         {
             type V = <$M as Machine>::u128x1;
             let ld = |b: &Vec<u8>| -> V { m.unpack(s128(b)) };
             let st = |v: V| -> Vec<u8> { b128(v.into()) };
             un!($c, "u128x1", o128, V, ld, st, "bswap" => |x: V| x.bswap());
-            storebytes!($c, m, "u128x1", o128, V, ld, st, 16);
+            assignops!($c, "u128x1", o128, V, ld, st);
         }
         {
             type V = <$M as Machine>::u64x2;
             let ld = |b: &Vec<u8>| -> V { m.unpack(s128(b)) };
             let st = |v: V| -> Vec<u8> { b128(v.into()) };
             storebytes!($c, m, "u64x2", o128, V, ld, st, 16);
+            assignops!($c, "u64x2", o128, V, ld, st);
+            eqop!($c, "u64x2", o128, V, ld);
+        }
+        {
+            type V = <$M as Machine>::u32x4;
+            let ld = |b: &Vec<u8>| -> V { m.unpack(s128(b)) };
+            let st = |v: V| -> Vec<u8> { b128(v.into()) };
+            assignops!($c, "u32x4", o128, V, ld, st);
+            eqop!($c, "u32x4", o128, V, ld);
+        }
+        {
+            type V = <$M as Machine>::u32x4x2;
+            let ld = |b: &Vec<u8>| -> V { m.unpack(s256(b)) };
+            let st = |v: V| -> Vec<u8> { b256(v.into()) };
+            assignops!($c, "u32x4x2", o256, V, ld, st);
+            lanewords4ops!($c, "u32x4x2", o256, V, ld, st);
+        }
+        {
+            type V = <$M as Machine>::u64x2x2;
+            let ld = |b: &Vec<u8>| -> V { m.unpack(s256(b)) };
+            let st = |v: V| -> Vec<u8> { b256(v.into()) };
+            assignops!($c, "u64x2x2", o256, V, ld, st);
+        }
+        {
+            type V = <$M as Machine>::u64x4;
+            let ld = |b: &Vec<u8>| -> V { m.unpack(s256(b)) };
+            let st = |v: V| -> Vec<u8> { b256(v.into()) };
+            assignops!($c, "u64x4", o256, V, ld, st);
+        }
+        {
+            type V = <$M as Machine>::u128x2;
+            let ld = |b: &Vec<u8>| -> V { m.unpack(s256(b)) };
+            let st = |v: V| -> Vec<u8> { b256(v.into()) };
+            assignops!($c, "u128x2", o256, V, ld, st);
+            un!($c, "u128x2", o256, V, ld, st, "bswap" => |x: V| x.bswap());
+        }
+        {
+            type V = <$M as Machine>::u32x4x4;
+            let ld = |b: &Vec<u8>| -> V { m.unpack(s512(b)) };
+            let st = |v: V| -> Vec<u8> { b512(v.into()) };
+            assignops!($c, "u32x4x4", o512, V, ld, st);
+        }
+        {
+            type V = <$M as Machine>::u64x2x4;
+            let ld = |b: &Vec<u8>| -> V { m.unpack(s512(b)) };
+            let st = |v: V| -> Vec<u8> { b512(v.into()) };
+            assignops!($c, "u64x2x4", o512, V, ld, st);
+            storebytes!($c, m, "u64x2x4", o512, V, ld, st, 64);
+        }
+        {
+            type V = <$M as Machine>::u128x4;
+            let ld = |b: &Vec<u8>| -> V { m.unpack(s512(b)) };
+            let st = |v: V| -> Vec<u8> { b512(v.into()) };
+            assignops!($c, "u128x4", o512, V, ld, st);
+            un!($c, "u128x4", o512, V, ld, st, "bswap" => |x: V| x.bswap());
         }
     }};
 }
@@ -552,23 +669,22 @@ macro_rules! concrete_ops {
 fn run_concrete(c: &mut Ctx, which: usize) {
     use ppv_lite86::x86_64::{AVX2, SSE2, SSE41, SSSE3};
     match which {
-        0 => concrete_ops!(c, SSE2),
-        1 => concrete_ops!(c, SSSE3),
-        2 => concrete_ops!(c, SSE41),
-        _ => concrete_ops!(c, AVX2),
+        0 => { concrete_ops!(c, SSE2); concrete_u128io!(c, SSE2) }
+        1 => { concrete_ops!(c, SSSE3); concrete_u128io!(c, SSSE3) }
+        2 => { concrete_ops!(c, SSE41); concrete_u128io!(c, SSE41) }
+        _ => { concrete_ops!(c, AVX2); concrete_u128io!(c, AVX2) }
     }
 }
 #[cfg(feature = "nosimd")]
 fn run_concrete(c: &mut Ctx, _which: usize) {
     use ppv_lite86::generic::GenericMachine;
+    concrete_ops!(c, GenericMachine);
     let m = unsafe { GenericMachine::instance() };
-    c.mach = core::any::type_name::<GenericMachine>().to_string();
     let o128 = c.ops128.clone();
     type V = <GenericMachine as Machine>::u128x1;
     let ld = |b: &Vec<u8>| -> V { m.unpack(s128(b)) };
     let st = |v: V| -> Vec<u8> { b128(v.into()) };
-    un!(c, "u128x1", o128, V, ld, st, "bswap" => |x: V| x.bswap());
-    bin!(c, "u128x1", o128, V, ld, st, "add" => |x: V, y: V| x + y);
+    bin!(c, "u128x1", o128, V, ld, st, "add" => |x: V, y: V| x + y, "add_assign" => |x: V, y: V| { let mut z = x; z += y; z });
 }
 
 fn run_guarded(c: &mut Ctx, f: &mut dyn FnMut(&mut Ctx)) {
